@@ -321,6 +321,7 @@ structure Rec where
   status : Nat
   location : Option Str
   req : Snap
+  body : List Nat := []
   deriving DecidableEq
 
 /-- an entry of the `.requests` deque (as put there by `Patron.request(method, path, qargs, body)`) -/
@@ -354,8 +355,9 @@ structure Patron where
 structure Resp where
   status : Nat
   location : Option Str
-  clen : Nat       -- declared Content-Length
+  clen : Nat       -- declared length of the body (Content-Length, or the sum of the chunks)
   blen : Nat       -- body bytes actually following the head
+  body : List Nat := []   -- those bytes (the copy the response record carries)
   deriving DecidableEq
 
 def redirectStatus (n : Nat) : Bool := n = 300 || n = 301 || n = 302 || n = 303 || n = 307
@@ -471,7 +473,7 @@ def neededBody (respMethod : Str) (r : Resp) : Nat :=
   else r.clen
 
 def recOf (p : Patron) (r : Resp) : Rec :=
-  { status := r.status, location := r.location, req := snapOf p.req }
+  { status := r.status, location := r.location, req := snapOf p.req, body := r.body }
 
 /-- `Patron.serviceResponse` for one response message arriving while `.waited` -/
 def serviceResponse (S : Std) (p : Patron) (r : Resp) : Out :=
@@ -511,22 +513,46 @@ def run (S : Std) : Patron → List Op → Out
       let b := run S a.p os
       ⟨b.p, a.es ++ b.es, b.err⟩
 
-/-- `Patron(hostname=…, port=…, scheme=…)` with the other defaults, then `.open()` -/
-def initPatron (S : Std) (hostname : Str) (port : Option Int) (scheme : Str) (redirectable : Bool) :
-    Except Err (Patron × List Effect) :=
-  let scheme := if asciiLower scheme = sHttps then sHttps else sHttp
-  let secured := decide (scheme = sHttps)
-  match normalizeHostPort (some hostname) port (if secured then 443 else 80) with
+/-- a connector handed to `Patron(connector=…)`: (is it a `ClientTls`, its `.hostname`, its `.port`) -/
+abbrev Connector := Bool × Str × Int
+
+/-- `Patron(path=url, hostname=…, port=…, scheme=…, connector=…)` with the other defaults, then `.open()`.
+`url` is the `path` argument (default `/`): scheme, host and port found in it take priority.  With a caller-supplied
+connector the scheme is dictated by its type and the requester takes the connector's host name and port. -/
+def initPatron (S : Std) (url hostname : Str) (port : Option Int) (scheme : Str) (connector : Option Connector)
+    (redirectable : Bool) : Except Err (Patron × List Effect) :=
+  let sp := S.urlsplit url
+  let scheme0 := asciiLower (if sp.scheme.isEmpty then scheme else sp.scheme)
+  let sd : Except Err (Str × Bool × Int) :=
+    match connector with
+    | some (true, _, _) => if !scheme0.isEmpty && scheme0 ≠ sHttps then .error .valueError else .ok (sHttps, true, 443)
+    | some (false, _, _) => if !scheme0.isEmpty && scheme0 ≠ sHttp then .error .valueError else .ok (sHttp, false, 80)
+    | none => if scheme0 = sHttps then .ok (sHttps, true, 443) else .ok (sHttp, false, 80)
+  match sd with
   | .error e => .error e
-  | .ok (hostname, port) =>
-    match S.resolve hostname with
-    | none => .error .gaiError
-    | some ip =>
-      let c : Conn := { ip := ip, port := port, tls := secured }
-      .ok ({ conn := c,
-             req := { hostname := hostname, port := port, scheme := scheme, method := sGET, path := sSlash,
-                      qargs := [], fragment := [], body := [] },
-             respMethod := sGET, redirects := [], responses := [], waited := false,
-             redirectable := redirectable, queue := [] }, [Effect.open c])
+  | .ok (scheme, secured, defaultPort) =>
+    match sp.port with
+    | none => .error .valueError
+    | some spp =>
+      let hostname := match sp.hostname with | some h => if h.isEmpty then hostname else h | none => hostname
+      let port : Option Int := match spp with | some n => if n = 0 then port else some (n : Int) | none => port
+      match normalizeHostPort (some hostname) port defaultPort with
+      | .error e => .error e
+      | .ok (hostname, port) =>
+        match S.resolve hostname with
+        | none => .error .gaiError
+        | some ip =>
+          let mk (c : Conn) (h : Str) (pt : Int) : Patron × List Effect :=
+            ({ conn := c,
+               req := { hostname := h, port := pt, scheme := scheme, method := sGET, path := sSlash,
+                        qargs := [], fragment := [], body := [] },
+               respMethod := sGET, redirects := [], responses := [], waited := false,
+               redirectable := redirectable, queue := [] }, [Effect.open c])
+          match connector with
+          | none => .ok (mk { ip := ip, port := port, tls := secured } hostname port)
+          | some (tls, chost, cport) =>
+            match S.resolve chost with
+            | none => .error .gaiError
+            | some cip => .ok (mk { ip := cip, port := cport, tls := tls } chost cport)
 
 end Ioflo.Redirect
